@@ -4,6 +4,7 @@ import (
 	"bytes"
 	"fmt"
 	"io"
+	"strings"
 	"testing"
 	"time"
 
@@ -378,6 +379,11 @@ func c25Check(sc *c25Scenario, sides [2]*c25Side, total [2]int, o *Outcome) *Fai
 		if rcv.readErr != nil {
 			o.count("probe.receiver_error_after_fault", 1)
 		}
+		// a stream that ends strictly inside a record (bytes of that record were dropped) must not be reported as a
+		// clean end of stream: io.EOF is what Read returns for an orderly close
+		if strings.HasPrefix(ff.Kind, "trunc") && len(snd.filter.Fired) == 1 && rcv.readErr == io.EOF {
+			return Failf("c25.fault.cleaneof", "stream cut inside a record ("+ff.Kind+") is reported as a clean EOF", "%s dir %d fault %s at record %d: read %d of %d bytes, then io.EOF", tag, d, ff.Kind, ff.Rec, len(R), expected)
+		}
 	}
 	if !anyFired {
 		// fault-free (or the planned faults never reached): everything must arrive
@@ -504,7 +510,7 @@ func init() {
 		Real:   []string{"tls.Conn Handshake/Read/Write/Close on both ends, all record protection code paths (CBC, RC4, AES-GCM, ChaCha20, TLS 1.3 AEAD)", "1/n-1 record split", "dynamic record sizing"},
 		Stub:   []string{"transport (simnet)", "clock", "entropy", "PKI from fixed key pool"},
 		Assume: []string{"a read timeout or EOF after a dropped/truncated tail counts as the receiver returning an error", "for a write that straddles the disturbed record at least one of its bytes is carried by or after that record"},
-		FaultKinds: []string{"fault.flip.hdr_type", "fault.flip.hdr_vers", "fault.flip.hdr_len", "fault.flip.head", "fault.flip.body", "fault.flip.tail", "fault.drop", "fault.dup", "fault.swap", "fault.replay", "fault.trunc", "fault.insert",
+		FaultKinds: []string{"fault.flip.hdr_type", "fault.flip.hdr_vers", "fault.flip.hdr_len", "fault.flip.head", "fault.flip.body", "fault.flip.tail", "fault.drop", "fault.dup", "fault.swap", "fault.replay", "fault.trunc", "fault.trunc.hdr", "fault.insert",
 			"reframe.empty_record", "reframe.empty_record_padded", "reframe.padding", "reframe.split", "reframe.key_update_injected", "reframe.key_update_requested",
 			"net.segments", "net.short_read", "net.write_blocked_on_window", "net.read_deadline_expired", "probe.faultfree_complete", "probe.receiver_error_after_fault", "probe.tls10_cbc_split_path"},
 		NotInjected: "no storage or crash-restart exists in a TLS connection; faults before the end of the handshake belong to C32",
